@@ -417,4 +417,25 @@ PROPS['C03'] = dict(
     technique='bounded sweep of the real engines (stand-in; contracts for the pruning invariant are not written)',
 )
 
+PROPS['C11'] = dict(
+    modules=['contracts.dtw_py', 'contracts.dtw_c', 'contracts.ed_c', 'contracts.bounds_c'],
+    contracts=['dtw.distance#ndim', 'dd_dtw.c::dtw_distance_ndim', 'dd_dtw.c::dtw_distance_ndim_euclidean',
+               'dd_ed.c::euclidean_distance_ndim', 'dd_ed.c::euclidean_distance_ndim_euclidean',
+               'dd_dtw.c::ub_euclidean_ndim', 'dd_dtw.c::ub_euclidean_ndim_euclidean'],
+    lemmas=['BufFold', 'BufFold2', 'RowAllInf', 'RowLeadInf', 'FoldMinIsMin'],
+    bounded={'c-kernels-vs-path-enumeration-and-python': lambda run: __import__('bounded.dtw_sweep', fromlist=['x']).sweep_c_distance(run)},
+    level='proof',
+    level_text='The multivariate routes of both engines are proved against the univariate specification W with the point '
+               'distance replaced by the (squared) Euclidean distance between the vectors (left-to-right sum over the '
+               'dimensions): dtw.distance(use_ndim=True) through the real DTWSettings / inner_dist_fns, dtw_distance_ndim, '
+               'dtw_distance_ndim_euclidean; the multivariate Euclidean upper bound (C) against the padded multivariate sum.',
+    level_note='Trusted: NumPy vector point distance np.sum((x-y)**2) (A3, contract on innerdistance.*Ndim.inner_dist); '
+               'd = 1 coinciding with the univariate routine and the cost-matrix / path / distance-matrix multivariate routes '
+               'are covered by the bounded sweeps only; Python ed.distance(use_ndim=True) is not under contract.',
+    trusted_base=[PY_A1, 'A2', A3_NUMPY, A7],
+    assumptions=[PY_A1, 'A2', A3_NUMPY, A7],
+    not_decided=['d = 1 equals the univariate result: bounded (C sweep calls both kernels)', 'multivariate cost matrix / path / '
+                 'distance matrix: bounded or covered under C04-C06 only', 'pruning with the multivariate bound: C03'],
+)
+
 NOT_APPLICABLE = {p: 'not decided yet: machinery for this property is still being built (see DESIGN.md §9 order of work)' for p in ['C01', 'C02', 'C03', 'C04', 'C05', 'C06', 'C07', 'C08', 'C09', 'C10', 'C11', 'C12', 'C13', 'C14', 'C15', 'C16', 'C17', 'C18', 'C19', 'C20'] if p not in PROPS}
